@@ -547,3 +547,12 @@ package jd
 //@   requires validNode(n) && validHunk(e)
 //@   ensures_bounded ret0
 //@   carries C08
+
+//@ contract verifKeyedMember
+//@   bounded
+//@   universe old verifNodes(0)
+//@   universe new verifNodes(0)
+//@   requires validObject(member) && validNode(old) && validNode(new)
+//@   ensures_bounded ret0 != 1
+//@   ensures_bounded ret0 != 2 && ret0 != 3
+//@   carries C08
